@@ -19,6 +19,9 @@ pub uninterp spec fn le16(x: u16) -> Seq<u8>;
 pub uninterp spec fn le32(x: u32) -> Seq<u8>;
 pub uninterp spec fn le64(x: u64) -> Seq<u8>;
 pub uninterp spec fn le128(x: u128) -> Seq<u8>;
+/// LEB128 varint coding (varint_rs): a prefix-free code, which is what the decoding contracts of read_uN_varint state
+pub uninterp spec fn var64(x: u64) -> Seq<u8>;
+pub uninterp spec fn var32(x: u32) -> Seq<u8>;
 pub uninterp spec fn un_le16(b: Seq<u8>) -> u16;
 pub uninterp spec fn un_le32(b: Seq<u8>) -> u32;
 pub uninterp spec fn un_le64(b: Seq<u8>) -> u64;
@@ -83,6 +86,19 @@ trait Read: Sized {
             && (*final(self)).rest() == (*old(self)).rest().skip(4)
             && (*final(self)).seen() == (*old(self)).seen() + (*old(self)).rest().subrange(0, 4)
     { unimplemented!() }
+    /// varint_rs::VarintReader (TRUSTED): reads the unique varint at the head of the source
+    #[verifier::external_body]
+    fn read_u64_varint(&mut self) -> (r: Result<u64, Error>)
+        ensures (*old(self)).src_id() == (*final(self)).src_id(),
+            r is Ok ==> exists|n: int| 0 < n <= (*old(self)).rest().len() && (*old(self)).rest().subrange(0, n) == var64(r->Ok_0) && (*final(self)).rest() == (*old(self)).rest().skip(n),
+            forall|x: u64, tail: Seq<u8>| (*old(self)).rest() == var64(x) + tail ==> (r is Ok ==> r->Ok_0 == x && (*final(self)).rest() == tail)
+    { unimplemented!() }
+    #[verifier::external_body]
+    fn read_u32_varint(&mut self) -> (r: Result<u32, Error>)
+        ensures (*old(self)).src_id() == (*final(self)).src_id(),
+            r is Ok ==> exists|n: int| 0 < n <= (*old(self)).rest().len() && (*old(self)).rest().subrange(0, n) == var32(r->Ok_0) && (*final(self)).rest() == (*old(self)).rest().skip(n),
+            forall|x: u32, tail: Seq<u8>| (*old(self)).rest() == var32(x) + tail ==> (r is Ok ==> r->Ok_0 == x && (*final(self)).rest() == tail)
+    { unimplemented!() }
     #[verifier::external_body]
     fn read_u16_le(&mut self) -> (r: Result<u16, Error>)
         ensures (*old(self)).src_id() == (*final(self)).src_id(), r is Ok ==> (*old(self)).rest().len() >= 2 && r->Ok_0 == un_le16((*old(self)).rest().subrange(0, 2))
@@ -139,6 +155,15 @@ trait Write: Sized {
     #[verifier::external_body]
     fn write_u32_le(&mut self, x: u32) -> (r: Result<(), Error>)
         ensures (*old(self)).sink_id() == (*final(self)).sink_id(), r is Ok ==> (*final(self)).written() == (*old(self)).written() + le32(x) && (*final(self)).seen() == (*old(self)).seen() + le32(x)
+    { unimplemented!() }
+    /// varint_rs::VarintWriter (TRUSTED)
+    #[verifier::external_body]
+    fn write_u64_varint(&mut self, x: u64) -> (r: Result<(), Error>)
+        ensures (*old(self)).sink_id() == (*final(self)).sink_id(), r is Ok ==> (*final(self)).written() == (*old(self)).written() + var64(x) && (*final(self)).seen() == (*old(self)).seen() + var64(x)
+    { unimplemented!() }
+    #[verifier::external_body]
+    fn write_u32_varint(&mut self, x: u32) -> (r: Result<(), Error>)
+        ensures (*old(self)).sink_id() == (*final(self)).sink_id(), r is Ok ==> (*final(self)).written() == (*old(self)).written() + var32(x) && (*final(self)).seen() == (*old(self)).seen() + var32(x)
     { unimplemented!() }
     #[verifier::external_body]
     fn write_u16_le(&mut self, x: u16) -> (r: Result<(), Error>)
@@ -1369,6 +1394,90 @@ impl<'a> Accessor<'a> {
             assert(Ok::<Option<UserValue>, Error>(Some(value))->Ok_0->Some_0@ == value@); }/*-*/
 
         Ok(Some(value))
+    }
+//@ END
+}
+
+// ---------------- blob pointers (vlog/handle.rs, blob_tree/handle.rs) ----------------
+//@ FROM src/blob_tree/handle.rs :: - :: struct BlobIndirection
+/*+*/#[derive(Copy, Clone)]/*-*/
+struct BlobIndirection {
+    vhandle: ValueHandle,
+    size: u32,
+}
+//@ END
+/// the bytes of an encoded pointer: offset, blob file id, on-disk size, value size - all varints
+spec fn vhandle_bytes(v: ValueHandle) -> Seq<u8> { var64(v.offset) + var64(v.blob_file_id) + var32(v.on_disk_size) }
+spec fn indirection_bytes(b: BlobIndirection) -> Seq<u8> { vhandle_bytes(b.vhandle) + var32(b.size) }
+
+impl ValueHandle {
+//@ FROM src/vlog/handle.rs :: impl Encode for ValueHandle :: fn encode_into :: OBL C08.14
+    fn encode_into<W: Write>(&self, writer: &mut W) -> /*+*/(r:/*-*/ Result<(), Error>/*+*/)
+        ensures (*old(writer)).sink_id() == (*final(writer)).sink_id(), r is Ok ==> (*final(writer)).written() == (*old(writer)).written() + vhandle_bytes(*self)/*-*/
+    {
+        /*+*/let ghost w0 = (*writer).written();/*-*/
+        writer.write_u64_varint(self.offset)?;
+        writer.write_u64_varint(self.blob_file_id)?;
+        writer.write_u32_varint(self.on_disk_size)?;
+        /*+*/proof { assert((*writer).written() =~= w0 + vhandle_bytes(*self)); }/*-*/
+        Ok(())
+    }
+//@ END
+//@ FROM src/vlog/handle.rs :: impl Decode for ValueHandle :: fn decode_from :: OBL C08.14
+    fn decode_from<R: Read>(reader: &mut R) -> /*+*/(r:/*-*/ Result<Self, Error>/*+*/)
+        ensures (*old(reader)).src_id() == (*final(reader)).src_id(),
+            forall|v: ValueHandle, tail: Seq<u8>| (*old(reader)).rest() == vhandle_bytes(v) + tail ==> (r is Ok ==> r->Ok_0 == v && (*final(reader)).rest() == tail)/*-*/
+    {
+        /*+*/let ghost r0 = (*reader).rest();/*-*/
+        let offset = reader.read_u64_varint()?;
+        /*+*/let ghost r1 = (*reader).rest();/*-*/
+        let blob_file_id = reader.read_u64_varint()?;
+        /*+*/let ghost r2 = (*reader).rest();/*-*/
+        let on_disk_size = reader.read_u32_varint()?;
+        /*+*/proof {
+            assert forall|v: ValueHandle, tail: Seq<u8>| r0 == vhandle_bytes(v) + tail implies offset == v.offset && blob_file_id == v.blob_file_id && on_disk_size == v.on_disk_size && (*reader).rest() == tail by {
+                assert(r0 =~= var64(v.offset) + (var64(v.blob_file_id) + var32(v.on_disk_size) + tail));
+                assert(r1 == var64(v.blob_file_id) + var32(v.on_disk_size) + tail);
+                assert(r1 =~= var64(v.blob_file_id) + (var32(v.on_disk_size) + tail));
+                assert(r2 == var32(v.on_disk_size) + tail);
+            }
+        }/*-*/
+
+        Ok(Self {
+            blob_file_id,
+            offset,
+            on_disk_size,
+        })
+    }
+//@ END
+}
+impl BlobIndirection {
+//@ FROM src/blob_tree/handle.rs :: impl Encode for BlobIndirection :: fn encode_into :: OBL C08.14
+    fn encode_into<W: Write>(&self, writer: &mut W) -> /*+*/(r:/*-*/ Result<(), Error>/*+*/)
+        ensures (*old(writer)).sink_id() == (*final(writer)).sink_id(), r is Ok ==> (*final(writer)).written() == (*old(writer)).written() + indirection_bytes(*self)/*-*/
+    {
+        /*+*/let ghost w0 = (*writer).written();/*-*/
+        self.vhandle.encode_into(writer)?;
+        writer.write_u32_varint(self.size)?;
+        /*+*/proof { assert((*writer).written() =~= w0 + indirection_bytes(*self)); }/*-*/
+        Ok(())
+    }
+//@ END
+//@ FROM src/blob_tree/handle.rs :: impl Decode for BlobIndirection :: fn decode_from :: OBL C08.14
+    fn decode_from<R: Read>(reader: &mut R) -> /*+*/(r:/*-*/ Result<Self, Error>/*+*/)
+        ensures forall|b: BlobIndirection, tail: Seq<u8>| (*old(reader)).rest() == indirection_bytes(b) + tail ==> (r is Ok ==> r->Ok_0 == b && (*final(reader)).rest() == tail)/*-*/
+    {
+        /*+*/let ghost r0 = (*reader).rest();/*-*/
+        let vhandle = ValueHandle::decode_from(reader)?;
+        /*+*/let ghost r1 = (*reader).rest();/*-*/
+        let size = reader.read_u32_varint()?;
+        /*+*/proof {
+            assert forall|b: BlobIndirection, tail: Seq<u8>| r0 == indirection_bytes(b) + tail implies vhandle == b.vhandle && size == b.size && (*reader).rest() == tail by {
+                assert(r0 =~= vhandle_bytes(b.vhandle) + (var32(b.size) + tail));
+                assert(r1 == var32(b.size) + tail);
+            }
+        }/*-*/
+        Ok(Self { vhandle, size })
     }
 //@ END
 }
